@@ -165,7 +165,7 @@ def assemble(repo):
     specs = load_specs()
     out = ["// generated by /verif/lib/verus_units.py from %s - do not edit" % repo,
            "use vstd::prelude::*;", "use vstd::std_specs::cmp::PartialEqSpec;",
-           "use core::mem::MaybeUninit;", "verus! {", ""]
+           "use core::mem::MaybeUninit;", "use core::mem;  // src/entry.rs: `use core::mem;`", "verus! {", ""]
     for s in specs.get("struct", []):
         out.append(extract_struct(repo, s))
         out.append("")
